@@ -49,9 +49,12 @@ impl<T: Send> BoundedAsyncSender<T> {
   }
 
   pub fn to_sync(self) -> BoundedSyncSender<T> {
+    let closed = self.closed.load(Ordering::Relaxed);
     let shared = unsafe { std::ptr::read(&self.shared) };
     mem::forget(self);
-    BoundedSyncSender::from_shared(shared)
+    let converted = BoundedSyncSender::from_shared(shared);
+    converted.closed.store(closed, Ordering::Relaxed);
+    converted
   }
 
   pub fn send(&mut self, item: T) -> SendFuture<'_, T> {
@@ -204,12 +207,15 @@ impl<T: Send> BoundedAsyncReceiver<T> {
   }
 
   pub fn to_sync(self) -> BoundedSyncReceiver<T> {
+    let closed = self.closed.load(Ordering::Relaxed);
     if self.is_registered {
       self.shared.unregister(Role::Recv);
     }
     let shared = unsafe { std::ptr::read(&self.shared) };
     mem::forget(self);
-    BoundedSyncReceiver::from_shared(shared)
+    let converted = BoundedSyncReceiver::from_shared(shared);
+    converted.closed.store(closed, Ordering::Relaxed);
+    converted
   }
 
   pub fn recv(&mut self) -> ReceiveFuture<'_, T> {
